@@ -170,11 +170,17 @@ class _SxFloatMeta(type):
         return isinstance(obj, (builtins.float, R))
 
 
+FLOAT_TOKENS = {}     # concrete float -> value standing for it (provenance tags of numbers read from generated text; see props/c08.py)
+
+
 class sx_float(metaclass=_SxFloatMeta):
     """float() that lets symbolic reals through; isinstance(x, float) accepts symbolic reals"""
     def __new__(cls, v=0.0):
         if isinstance(v, R):
             return v
+        if FLOAT_TOKENS and isinstance(v, builtins.str):
+            f = builtins.float(v)
+            return FLOAT_TOKENS.get(f, f)
         if isinstance(v, I):
             return R(z3.ToReal(v.t))
         return builtins.float(v)
